@@ -319,7 +319,8 @@ fn universal_cases(ctx: &mut Ctx, t: &Tab, tags: &str) {
     ctx.case("pi1_universal", tags, || t.enc(), || {
         let c = finite_universal_cover(&t.to_partial_dsym());
         let g = fundamental_group(&c);
-        format!("{} {}", g.nr_generators(), g.relators.len())
+        let rels: Vec<Vec<isize>> = g.relators.iter().map(word_letters).collect();
+        format!("{} {}", g.nr_generators(), enc_lists(&rels))
     });
 }
 
@@ -438,8 +439,16 @@ fn main() {
                     covers_case(&mut ctx, s, k, true, &format!("nt {tag} k={k}"));
                     // explicit sheet maps on the smallest symbols
                     if si == 0 || n == 1 {
-                        let (ms, cap) = if n <= 2 { (3, if th { 400 } else { 80 }) } else { (2, if th { 64 } else { 16 }) };
-                        if n <= 3 || th {
+                        let (ms, cap) = if n <= 2 {
+                            (3, if th { 200 } else { 80 })
+                        } else if n == 3 {
+                            (2, if th { 64 } else { 16 })
+                        } else {
+                            (2, if th { 12 } else { 8 })
+                        };
+                        // larger symbols: a seeded sample of the D-sets only
+                        let pick = n <= 3 || (th && n == 4) || rng.chance(1, if th { 24 } else { 40 });
+                        if pick {
                             cover_cases(&mut ctx, s, &mut rng, ms, cap, &tag);
                         }
                     }
@@ -469,7 +478,7 @@ fn main() {
                 let ng = nr_generators(s);
                 let subsets = subgroup_gens(ng, 2, if th { 6 } else { 2 }, &mut rng);
                 for (k, subs) in subsets.iter().enumerate() {
-                    if th || n <= 2 || k % 4 == 0 {
+                    if n <= 2 || (th && n <= 3) || k % 4 == 0 {
                         subgroup_case(&mut ctx, s, subs, &tag);
                     }
                 }
